@@ -173,10 +173,11 @@ def r10b(ctx: Context) -> None:
         guard_leaves: Set[str] = set()
         hops = 0
         while hops < 4:
-            facts = [(t, p) for t, p in guards_of(func.node, node) if p and not norm(t).startswith("fix_")]
+            facts = [(t, p) for t, p in guards_of(func.node, node) if not norm(t).startswith("fix_")]
             if facts:
-                for test, _ in facts:
-                    guard_leaves |= provenance(prog, func, test)
+                for test, polarity in facts:
+                    leaves = provenance(prog, func, test)
+                    guard_leaves |= leaves if polarity else {f"not {leaf}" for leaf in leaves}
                 break
             callers = prog.callers.get(func.qualname, [])
             if len(callers) != 1:
